@@ -118,7 +118,7 @@ def gen_history(rng, length, nslots=2):
         elif r < 0.93:
             emit(s, 'has_fz0', [])
         elif r < 0.95:
-            emit(s, rng.choice(['set_filetype', 'set_fprecision', 'set_dprecision']), [rng.randint(-1, 5)])
+            emit(s, rng.choice(['set_filetype', 'set_fprecision', 'set_dprecision']), [rng.randint(-1, 5) if rng.random() < 0.8 else rng.choice([17, 999, 1000, 1001, 50000000, 2147483647])])
         else:
             emit(s, 'digest', [])
     for s in range(nslots):
